@@ -26,11 +26,11 @@ Observe(rid, h) ==
 NoObs == UNCHANGED <<seen, clash>>
 
 TraceInit ==
-    /\ l = 1 /\ root = Absent /\ db = {} /\ map = EmptyMap /\ roots = {} /\ maxLevel = 1 /\ hist = <<>>
+    /\ l = 1 /\ root = Absent /\ db = {} /\ map = EmptyMap /\ roots = {} /\ parked = <<>> /\ maxLevel = 1 /\ hist = <<>>
     /\ seen = {} /\ clash = NoClash
 TNew ==
     /\ IsEvent("New")
-    /\ root' = Absent /\ db' = {} /\ map' = EmptyMap /\ roots' = {} /\ maxLevel' = Ev.in.maxLevel
+    /\ root' = Absent /\ db' = {} /\ map' = EmptyMap /\ roots' = {} /\ parked' = <<>> /\ maxLevel' = Ev.in.maxLevel
     /\ hist' = <<[a |-> "New", in |-> Ev.in, out |-> Ev.out, st |-> Ev.st]>>
     /\ NoObs
 TUpdate   == IsEvent("Update") /\ Update(Ev.in.k, Ev.in.v) /\ Ev.out.err = 0 /\ NoObs
@@ -47,7 +47,13 @@ TRecreate ==
     /\ IF Ev.in.empty THEN RecreateEmpty
        ELSE \E r \in roots : <<Ev.in.rid, r.h>> \in seen /\ Recreate(r)
     /\ Observe(Ev.out.rid, HashOf(root'))
-TraceNext == TNew \/ TUpdate \/ TDelete \/ TGet \/ TRootHash \/ TCommit \/ TRecreate
+\* the original stays in use next to the recreated instance; Switch re-addresses the calls
+TRecreateKeep ==
+    /\ IsEvent("RecreateKeep") /\ Ev.out.err = 0
+    /\ \E r \in roots : <<Ev.in.rid, r.h>> \in seen /\ RecreateKeep(r)
+    /\ Observe(Ev.out.rid, HashOf(root'))
+TSwitch == IsEvent("Switch") /\ Switch(Ev.in.i) /\ NoObs
+TraceNext == TNew \/ TUpdate \/ TDelete \/ TGet \/ TRootHash \/ TCommit \/ TRecreate \/ TRecreateKeep \/ TSwitch
 TraceSpec == TraceInit /\ [][TraceNext]_tvars
 
 \* C02 on the observations: the relation root id <-> contents is one-to-one
